@@ -74,7 +74,7 @@ Definition mk_table (low high : list Q) (npt : list Z) (f : list Q -> Q) : table
      t_h := map3 hstep low high npt;
      t_axes := axes;
      t_strides := strides_from 1 npt;
-     t_vals := map f (fpoints axes) |}.
+     t_vals := map (fun p => Qred (f p)) (fpoints axes) |}.
 
 (* ---------------------------------------------------------------- standard table *)
 
@@ -103,7 +103,7 @@ Fixpoint right_weights (x : list Q) (axes : list (list Q)) (h : list Q) (base : 
   match x, axes, h, base with
   | xi :: x', a :: axes', hi_ :: h', b :: base' =>
       bind (pyget a b) (fun p =>
-      bind (right_weights x' axes' h' base') (fun ws => ok ((xi - p) / hi_ :: ws)))
+      bind (right_weights x' axes' h' base') (fun ws => ok (Qred ((xi - p) / hi_) :: ws)))
   | _, _, _, _ => ok []
   end.
 
@@ -133,7 +133,7 @@ Fixpoint interp_loop (vals : list Q) (rw : list Q) (base strides : list Z)
       let w := qprod (map2 axis_weight rw inc) in
       let idx := lin_index base inc strides in
       if (idx <? Z.of_nat (length vals))%Z then
-        bind (pyget vals idx) (fun v => interp_loop vals rw base strides rest (acc + w * v))
+        bind (pyget vals idx) (fun v => interp_loop vals rw base strides rest (Qred (acc + w * v)))
       else if Qltb w tol10 then interp_loop vals rw base strides rest acc
       else fail AssertErr
   end.
@@ -154,7 +154,7 @@ Fixpoint grad_loop (vals : list Q) (rw : list Q) (base strides : list Z) (axis :
       let wi := set_nth axis (2 * inject_Z (nth axis inc 0%Z) - 1) (map2 axis_weight rw inc) in
       let w := qprod wi in
       let idx := lin_index base inc strides in
-      bind (pyget vals idx) (fun v => grad_loop vals rw base strides axis rest (acc + w * v))
+      bind (pyget vals idx) (fun v => grad_loop vals rw base strides axis rest (Qred (acc + w * v)))
   end.
 
 Definition gradient (t : table) (x : list Q) (axis : nat) : res Q :=
@@ -210,7 +210,7 @@ Fixpoint fill_loop (f : list Q -> Q) (h base : list Q) (b : list Z) (incs : list
       | Some _ => fill_loop f h base b rest s
       | None =>
           let c := vertex_coord h base k in
-          fill_loop f h base b rest (s ++ [{| e_idx := k; e_pt := c; e_val := f c |}])
+          fill_loop f h base b rest (s ++ [{| e_idx := k; e_pt := c; e_val := Qred (f c) |}])
       end
   end.
 
@@ -223,7 +223,7 @@ Definition afill (f : list Q -> Q) (t : atable) (x : list Q) : atable :=
 Definition aright_weights (t : atable) (x : list Q) (b : list Z) : res (list Q) :=
   match lookup (a_store t) b with
   | None => fail AssertErr
-  | Some e => ok (map3 (fun xi pi hi_ => (xi - pi) / hi_) x (e_pt e) (a_h t))
+  | Some e => ok (map3 (fun xi pi hi_ => Qred ((xi - pi) / hi_)) x (e_pt e) (a_h t))
   end.
 
 (* parent loops with _index_from_base_and_increment(linear=True) = position in the store
@@ -240,7 +240,7 @@ Fixpoint ainterp_loop (s : list entry) (rw : list Q) (b : list Z) (axis : option
                 end in
       match lookup s (map2 Z.add b inc) with
       | None => fail AssertErr
-      | Some e => ainterp_loop s rw b axis rest (acc + qprod wi * e_val e)
+      | Some e => ainterp_loop s rw b axis rest (Qred (acc + qprod wi * e_val e))
       end
   end.
 
